@@ -980,7 +980,7 @@ static Boolean DecodePseudo(void) {
         TempResult t;
 
         as_tempres_ini(&t);
-        if (ChkArgCnt(1, ArgCntMax)) {
+        if (ChkArgCnt(1, ArgCntMax) && ChkArgCodeSpace(4)) {
             OK = True;
             for (int z = 1; OK && (z <= ArgCnt); z++) {
                 EvalStrExpression(&ArgStr[z], &t);
